@@ -4,12 +4,44 @@
    Definitions only. *)
 From Boltons Require Import Lib.Prelude.
 
+(* Items are binary-number tokens (N), not Prelude's unary K = nat: comparing two tokens costs the number
+   of bits, so histories with thousands of distinct items stay cheap for vm_compute.  [K] below shadows
+   Prelude.K in every C11 file; indexes, lengths and slots remain nat. *)
+Definition K := N.
+
+(* a Python dict keyed by tokens: association list in insertion order (as Prelude's pydict) *)
+Section TDict.
+  Context {B : Type}.
+  Definition tdict := list (K * B).
+  Fixpoint d_get (d : tdict) (k : K) : option B :=
+    match d with
+    | [] => None
+    | (k', v) :: r => if N.eqb k k' then Some v else d_get r k
+    end.
+  Definition d_mem (d : tdict) (k : K) : bool :=
+    match d_get d k with Some _ => true | None => false end.
+  Fixpoint d_set (d : tdict) (k : K) (v : B) : tdict :=
+    match d with
+    | [] => [(k, v)]
+    | (k', v') :: r => if N.eqb k k' then (k', v) :: r else (k', v') :: d_set r k v
+    end.
+  Fixpoint d_del (d : tdict) (k : K) : tdict :=
+    match d with
+    | [] => []
+    | (k', v') :: r => if N.eqb k k' then r else (k', v') :: d_del r k
+    end.
+  Definition d_keys (d : tdict) : list K := map fst d.
+End TDict.
+Arguments tdict B : clear implicits.
+
+Definition nseq (start len : nat) : list K := map N.of_nat (seq start len).    (* range(start, start+len) *)
+
 (* An operand of a set operation: what iterating it yields, in iteration
    order (the harness records the order Python actually iterates a set in),
    and whether it is itself an IndexedSet (only matters for __eq__). *)
 Record operand := Opd { o_iset : bool; o_elems : list K }.
 
-Definition l_mem (x : K) (l : list K) : bool := existsb (Nat.eqb x) l.
+Definition l_mem (x : K) (l : list K) : bool := existsb (N.eqb x) l.
 Definition opd_mem (x : K) (o : operand) : bool := l_mem x (o_elems o).   (* x in other *)
 Definition all_elems (os : list operand) : list K := flat_map o_elems os.  (* chain.from_iterable *)
 
@@ -61,12 +93,12 @@ Inductive ret :=
 | RNone | RItem (x : K) | RList (l : list K) | RBool (b : bool) | RNat (n : nat)
 | RSnap (lst getpos getneg rv : list K) (idx : list nat).
 
-Definition lK_eqb := list_eqb Nat.eqb.
+Definition lK_eqb := list_eqb N.eqb.
 
 Definition ret_eqb (a b : ret) : bool :=
   match a, b with
   | RNone, RNone => true
-  | RItem x, RItem y => Nat.eqb x y
+  | RItem x, RItem y => N.eqb x y
   | RList x, RList y => lK_eqb x y
   | RBool x, RBool y => Bool.eqb x y
   | RNat x, RNat y => Nat.eqb x y
@@ -87,7 +119,7 @@ Definition obs_eqb (a b : obs) : bool :=
 (* polynomial digest of a token list, truncated to 61 bits; the harness computes the same number *)
 Definition dg_mask : N := 2305843009213693951%N.      (* 2^61 - 1 *)
 Definition digest (l : list K) : N :=
-  fold_left (fun h x => N.land (h * 1000003 + N.of_nat x + 1) dg_mask) l 7%N.
+  fold_left (fun h x => N.land (h * 1000003 + x + 1) dg_mask) l 7%N.
 (* digest recorded when a read raised instead *)
 Definition dg_raised : N := 0%N.
 
@@ -97,14 +129,18 @@ Definition dg_raised : N := 0%N.
 Fixpoint ins_sorted (x : K) (l : list K) : list K :=
   match l with
   | [] => [x]
-  | y :: r => if Nat.leb x y then x :: y :: r else y :: ins_sorted x r
+  | y :: r => if N.leb x y then x :: y :: r else y :: ins_sorted x r
   end.
 Definition sort_nat (l : list K) : list K := fold_right ins_sorted [] l.
 Definition py_sorted (l : list K) (reverse : bool) : list K :=
   if reverse then rev (sort_nat l) else sort_nat l.
 
 (* first occurrences, in order *)
-Definition uniq (l : list K) : list K := nodup_nat l.
+Fixpoint uniq (l : list K) : list K :=
+  match l with
+  | [] => []
+  | x :: r => x :: filter (fun y => negb (N.eqb x y)) (uniq r)
+  end.
 
 (* the index normalisation of a Python sequence: negative counts from the end *)
 Definition norm_index (len : nat) (i : Z) : option nat :=
